@@ -31,8 +31,9 @@ import common
 import gen_inputs
 import leanio
 
-PROP_FILES = ["C03", "C07", "C10", "C18", "BFULL2"]
+PROP_FILES = ["C03", "C06", "C07", "C10", "C18", "BFULL2"]
 MARK = "wp2_bfull2"
+MARKS = ["wp2_bfull2", "wp2b_affix", "wp2b_vspace", "wp2b_indent"]
 PROCS = int(os.environ.get("BFULL2_PROCS", "5"))
 
 # ------------------------------------------------------------------ Lean side
@@ -43,7 +44,9 @@ def my_theorems():
     for pf in PROP_FILES:
         p = os.path.join(common.LEAN, "VsgProofs", "Properties", pf + ".lean")
         src = open(p, encoding="utf-8").read()
-        bodies = re.findall(r"BEGIN %s(.*?)END %s" % (MARK, MARK), src, flags=re.S)
+        bodies = []
+        for mk in MARKS:
+            bodies += re.findall(r"BEGIN %s(.*?)END %s" % (mk, mk), src, flags=re.S)
         if not bodies:
             continue
         ns = re.search(r"^namespace\s+(\S+)", src, flags=re.M).group(1)
@@ -146,9 +149,37 @@ def lines_of(pl, kind):
     return ["".join(l) for l in out]
 
 
+def crash_frame(e):
+    """innermost frame of the traceback that lies in /repo: `rules/token_indent.py:indent_exists_but_is_incorrect`"""
+    site = "?"
+    for fr in traceback.extract_tb(e.__traceback__):
+        fn = fr.filename
+        if os.sep + "vsg" + os.sep in fn:
+            site = fn.split(os.sep + "vsg" + os.sep, 1)[1] + ":" + fr.name
+    return site
+
+
+# synthetic indent levels (wp2b stage 0): the levels `set_token_indent` produces never exercise the `None` guards,
+# negative levels or odd sizes of `_analyze`; overwrite the attribute of line-leading tokens and compare again
+SYNTH_LEVELS = [None, None, 0, 0, -1, -3, 1, 2, 3, 7, 40]
+SYNTH_CFGS = [(st, sz) for st in ("spaces", "smart_tabs") for sz in (0, 1, 2, 3, 4)]
+
+
+def line_leading(lObjects):
+    from vsg import parser as vparser
+
+    out = []
+    for i, t in enumerate(lObjects):
+        if isinstance(t, (vparser.whitespace, vparser.carriage_return, vparser.blank_line)):
+            continue
+        if i == 0 or isinstance(lObjects[i - 1], vparser.carriage_return) or (i >= 2 and isinstance(lObjects[i - 1], vparser.whitespace) and isinstance(lObjects[i - 2], vparser.carriage_return)):
+            out.append(t)
+    return out
+
+
 def real_indent_rule(o, r, style, size, snap, ci, ncls, kind):
     """the real rule on the shared file object; the object is restored afterwards"""
-    rec = {"tois": None, "viols": None, "fixed": None, "exc": None, "second": None, "c07": None}
+    rec = {"tois": None, "viols": None, "fixed": None, "exc": None, "second": None, "c07": None, "frame": None}
     r.indent_style = style
     r.indent_size = size
     r.violations = []
@@ -158,6 +189,7 @@ def real_indent_rule(o, r, style, size, snap, ci, ncls, kind):
         r._analyze(lToi)
     except Exception as e:  # noqa: BLE001
         rec["exc"] = type(e).__name__
+        rec["frame"] = crash_frame(e)
         r.violations = []
         return rec
     acts = {"remove_whitespace": 0, "adjust_whitespace": 1, "add_whitespace": 2}
@@ -183,6 +215,7 @@ def real_indent_rule(o, r, style, size, snap, ci, ncls, kind):
                     rec["c07"] = "changed lines %r, reported lines %r" % (changed[:8], reported[:8])
         except Exception as e:  # noqa: BLE001
             rec["exc"] = "fix:" + type(e).__name__
+            rec["frame"] = crash_frame(e)
         finally:
             r.violations = []
             r.had_violations = False
@@ -265,6 +298,33 @@ def run_job(job):
             bfull2_vspace.requests(o, rules, snap, _W, req, recs, idx)
         except ImportError:
             pass
+        # ---------------- family 3 (wp2b): token_prefix / token_suffix
+        try:
+            import bfull2_affix
+
+            bfull2_affix.requests(o, rules, snap, _W, req, recs, idx)
+        except ImportError:
+            pass
+        # ---------------- family 1 again with SYNTHETIC indent levels (None / 0 / negative / large) and sizes 0..4
+        if idx % 3 == 1:
+            rs = common.rng("bfull2-synth/%s/%s" % (common.rel(path), variant))
+            lead = line_leading(o.lAllObjects)
+            saved = [(t, getattr(t, "indent", None)) for t in lead]
+            for t in lead:
+                if rs.random() < 0.6:
+                    t.indent = rs.choice(SYNTH_LEVELS)
+            req.append("TOKS\t" + " ".join("%d:%s:%s" % (c, leanio.enc_str(v), "N" if getattr(t, "indent", None) is None else str(int(t.indent))) for (c, v), t in zip(pl, o.lAllObjects)))
+            scfgs = [SYNTH_CFGS[rs.randrange(len(SYNTH_CFGS))], SYNTH_CFGS[rs.randrange(len(SYNTH_CFGS))]]
+            for rid in _W["indent_ids"]:
+                r = rules.get(rid)
+                if r is None:
+                    continue
+                for style, size in scfgs:
+                    real = real_indent_rule(o, r, style, size, snap, ci, ncls, kind)
+                    req.append("IND\t%s\t%s\t%d" % (rid, leanio.enc_str(style), size))
+                    recs.append(("indent_synth", rid, (style, size), real))
+            for t, v in saved:
+                t.indent = v
         # ---------------- Lean
         p = subprocess.run([leanio.DRIVER, "bfull2"], input="".join(l + "\n" for l in req), stdout=subprocess.PIPE, text=True, encoding="utf-8")
         reps = p.stdout.split("\n")
@@ -274,20 +334,26 @@ def run_job(job):
         for (fam, rid, cfg, real), rep in zip(recs, reps):
             out["pairs"] += 1
             out["fam"][fam] = out["fam"].get(fam, 0) + 1
-            if fam == "indent":
-                compare_indent(out, path, variant, rid, cfg, real, parse_indent_reply(rep))
+            if fam in ("indent", "indent_synth"):
+                compare_indent(out, path, variant, rid, cfg, real, parse_indent_reply(rep), fam)
+            elif fam == "affix":
+                import bfull2_affix
+
+                bfull2_affix.compare(out, path, variant, rid, cfg, real, rep)
             else:
                 import bfull2_vspace
 
                 bfull2_vspace.compare(out, path, variant, rid, cfg, real, rep)
     except BaseException as e:  # noqa: BLE001
         out["mismatch"].append({"what": "harness", "exc": traceback.format_exc()[-1500:]})
+    for d in out["mismatch"] + out["findings"]:
+        d["idx"] = idx  # the job index selects the option values / synthetic levels: needed to replay
     return out
 
 
-def compare_indent(out, path, variant, rid, cfg, real, lean):
+def compare_indent(out, path, variant, rid, cfg, real, lean, fam="indent"):
     def mm(what, a, b):
-        out["mismatch"].append({"family": "indent", "rule": rid, "path": path, "variant": variant, "cfg": list(cfg), "what": what, "real": repr(a)[:600], "lean": repr(b)[:600]})
+        out["mismatch"].append({"family": fam, "rule": rid, "path": path, "variant": variant, "cfg": list(cfg), "what": what, "real": repr(a)[:600], "lean": repr(b)[:600]})
 
     if "bad" in lean:
         mm("bad reply", None, lean["bad"])
@@ -295,6 +361,10 @@ def compare_indent(out, path, variant, rid, cfg, real, lean):
     if real["exc"] is not None or "exc" in lean:
         if real["exc"] != lean.get("exc"):
             mm("exception", real["exc"], lean.get("exc"))
+            if real["exc"] is not None and "exc" not in lean:
+                # the real rule crashes on token state the engine can produce (stale / missing indent levels) where the
+                # model reports or repairs normally: also a C19 failure candidate at the crash frame
+                out["findings"].append({"prop": "C19", "site": real.get("frame") or "token_indent", "kind": real["exc"].replace("fix:", ""), "rule": rid, "path": path, "variant": variant, "cfg": list(cfg), "detail": "real %s raises %s (levels: %s); the whole-rule model does not" % (rid, real["exc"], "synthetic" if fam == "indent_synth" else "set_token_indent")})
         else:
             out["nontrivial"] += 1
         return
@@ -320,7 +390,8 @@ def compare_indent(out, path, variant, rid, cfg, real, lean):
             # a second analysis that still reports: allowed only outside the theorem's guard (adjust under an unknown style)
             if guard_ok:
                 out["findings"].append({"prop": "C10", "site": "token_indent", "kind": "secondAnalysisNonEmpty", "rule": rid, "path": path, "variant": variant, "cfg": list(cfg), "detail": repr(real["second"][:4])})
-        if real["c07"] is not None and guard_ok and cfg[1] >= 1:
+        if real["c07"] is not None and guard_ok and cfg[1] >= 1 and fam == "indent":
+            # (synthetic negative levels: empty indent inserted as well — only real levels are held to the C07 clause)
             # (size <= 0: `add_whitespace` inserts an EMPTY whitespace token — reported line, unchanged text; outside the guard of the C07 theorem)
             out["findings"].append({"prop": "C07", "site": "token_indent", "kind": "unreportedLineChanged", "rule": rid, "path": path, "variant": variant, "cfg": list(cfg), "detail": real["c07"]})
 
@@ -394,7 +465,7 @@ def apply(res, agg, prop=None):
                 if k is not None:
                     print("KNOWN-FINDING: property=%s site=%s kind=%s %s" % (f["prop"], f["site"], f["kind"], k.get("detail", "")))
                     continue
-            res.fail(f["site"], f["kind"], json.dumps(f)[:1500], {"path": f["path"], "variant": f["variant"], "rule": f["rule"], "cfg": f["cfg"]})
+            res.fail(f["site"], f["kind"], json.dumps(f)[:1500], {"path": f["path"], "variant": f["variant"], "rule": f["rule"], "cfg": f["cfg"], "idx": f.get("idx", 0)})
     return {k: agg[k] for k in ("jobs", "pairs", "nontrivial", "fixes", "tois", "viols", "skipped", "fam", "variants", "wall", "from_cache")} | {"mismatches": len(agg["mismatch"]), "findings": len(agg["findings"])}
 
 
@@ -465,7 +536,7 @@ def replay(prop, path):
         return 0
     inp = d["input"]
     _winit()
-    r = run_job((inp["path"], inp["variant"], 0))
+    r = run_job((inp["path"], inp["variant"], inp.get("idx", 0)))
     bad = [f for f in r["findings"] if f["rule"] == inp.get("rule")] or r["findings"]
     for f in bad:
         print("REPRODUCED property=%s site=%s kind=%s %s" % (f["prop"], f["site"], f["kind"], json.dumps(f)[:400]))
